@@ -127,15 +127,17 @@ extern sigjmp_buf g_crash_jmp;
 extern volatile sig_atomic_t g_in_lib;
 extern CrashInfo g_crash;
 void install_crash_handlers();
+void install_watchdog(int seconds);   // liveness: a library call that does not return within `seconds` is reported like a crash
 std::string classify_addr(const void *p);
 
 // run `call` with the library; returns true if it completed, false if it faulted (g_crash filled)
+extern volatile uint64_t g_call_seq;     // bumped at every library call: the watchdog's notion of progress
 #define GUARDED_CALL(stmt) \
-    (sigsetjmp(g_crash_jmp, 1) == 0 ? (g_in_lib = 1, (stmt), g_in_lib = 0, true) : (g_in_lib = 0, false))
+    (sigsetjmp(g_crash_jmp, 1) == 0 ? (++g_call_seq, g_in_lib = 1, (stmt), g_in_lib = 0, true) : (g_in_lib = 0, false))
 // same, but the stack below the caller is dirtied *after* sigsetjmp returned, so that the garbage the
 // library's frames lie on is a pure function of `pat` (no return addresses of libc frames in it)
 #define GUARDED_CALL_DIRTY(pat, stmt) \
-    (sigsetjmp(g_crash_jmp, 1) == 0 ? (g_in_lib = 1, dirty_stack(pat), (stmt), g_in_lib = 0, true) : (g_in_lib = 0, false))
+    (sigsetjmp(g_crash_jmp, 1) == 0 ? (++g_call_seq, g_in_lib = 1, dirty_stack(pat), (stmt), g_in_lib = 0, true) : (g_in_lib = 0, false))
 
 // Determinism of everything the library can observe, including garbage: no ASLR, fixed-address
 // simulator stack, fixed-address arenas.
